@@ -23,10 +23,12 @@ pub(crate) fn update_backtracks<A>(dfa: &mut DFA<StateIdx, A>) {
     let mut visited: Map<StateIdx, bool> = Default::default();
 
     while let Some((state, backtrack)) = work_list.pop() {
-        // Did we visit the state, with the right backtrack state?
+        // Did we visit the state, with the right backtrack state? A state only ever goes from "no
+        // backtrack" to "backtrack": if it is reachable after an accepting state through any path
+        // it needs to backtrack, no matter which other paths lead to it.
         match visited.entry(state) {
             Entry::Occupied(mut entry) => {
-                if *entry.get() == backtrack {
+                if *entry.get() || !backtrack {
                     continue;
                 }
                 entry.insert(backtrack);
